@@ -575,6 +575,11 @@ func propFRI(t *rapid.T, c *curve) {
 
 	// (3) reference prover: honest mode must be accepted (and reproduces the library's proof), then it
 	// cheats in exactly one place
+	// (4) challenge binding: adaptive provers (independent of the positions model)
+	f.bindingX0(t, test, stmt, p, false)
+	f.bindingX0(t, test, stmt, p, true)
+	f.bindingS0(t, test, stmt, evals)
+
 	if !posOK {
 		return
 	}
@@ -611,10 +616,6 @@ func propFRI(t *rapid.T, c *curve) {
 	// (3) far-from-low-degree function: p + c*X^n is at distance >= 7/8 from every polynomial of degree < n.
 	f.farFunction(t, test, stmt, p, evals)
 
-	// (4) challenge binding
-	f.bindingX0(t, test, stmt, p, false)
-	f.bindingX0(t, test, stmt, p, true)
-	f.bindingS0(t, test, stmt, evals)
 }
 
 // foldsHold re-evaluates every folding equation of a proof at the given challenges and positions.
@@ -729,7 +730,11 @@ func (f *friInst) bindingX0(t *rapid.T, test, stmt string, p []*big.Int, dropSal
 	case o.accepted && !lucky:
 		accepted(t, "%s: FALSE STATEMENT ACCEPTED (challenge binding): the library's own prover and verifier accept a function of degree n+1 built from the folding challenge computed without the first Merkle root (%s): x0 does not depend on the commitment (%s)", test, label, clip(key))
 	case !o.accepted && lucky:
-		t.Fatalf("%s: honest-run proof whose single query sees the announced evaluation is rejected: %v", test, o)
+		if survey {
+			surveyHit("", "honest-run proof expected to pass its single query is rejected @ ")
+			return
+		}
+		t.Fatalf("%s: honest-run proof whose single query sees the announced evaluation (documented transcript) is rejected: %v", test, o)
 	case lucky:
 		rep.Case(test, key, true, "fri_proximity", cls+"|accepted_by_the_single_query(by_design)")
 		return
